@@ -17,12 +17,21 @@ def hosts(draw, *, min_inputs=1, max_inputs=5, max_gates=8, allow_empty=True):
     """A host circuit (netlist) whose gates will serve as operands."""
     nl = draw(gen.netlists(min_inputs=min_inputs, max_inputs=max_inputs, max_gates=max_gates, types=HOST_TYPES,
                            max_arity=3, styles=('plain', 'mixed'), max_outputs=3))
+    if draw(st.integers(0, 2)) == 0:
+        # a constant-zero (and sometimes a constant-one) gate to serve as operand bits: zero-extended and sparse numbers
+        have = {g[0] for g in nl['gates']}
+        extra = [[l, t, []] for l, t in (('zero_bit', 'ALWAYS_FALSE'), ('one_bit', 'ALWAYS_TRUE'))[:draw(st.integers(1, 2))] if l not in have]
+        nl = dict(nl, gates=nl['gates'] + extra)
     return nl
 
 
 def operand_picks(draw, count, *, allow_repeat=False):
     """Abstract operand choices (indices resolved against the host labels at check time)."""
-    return {'idx': [draw(st.integers(0, 60)) for _ in range(count)], 'repeat': allow_repeat}
+    picks = {'idx': [draw(st.integers(0, 60)) for _ in range(count)], 'repeat': allow_repeat}
+    if allow_repeat and count >= 2 and draw(st.integers(0, 3)) == 0:
+        # a run of positions held by the host's constant-zero gate (if it has one): [start, length], taken modulo
+        picks['zeros'] = [draw(st.integers(0, 30)), draw(st.integers(1, 5))]
+    return picks
 
 
 def resolve_operands(nl, picks, count=None):
@@ -42,6 +51,11 @@ def resolve_operands(nl, picks, count=None):
             if labs[k] in out:
                 return None
             out.append(labs[k])
+    zero = next((g[0] for g in nl['gates'] if g[1] == 'ALWAYS_FALSE' and not g[2]), None)
+    if picks.get('zeros') and picks['repeat'] and zero is not None and out:
+        start, length = picks['zeros']
+        for q in range(min(length, len(out) - 1)):
+            out[(start + q) % len(out)] = zero
     return out
 
 
@@ -189,3 +203,48 @@ def check_basis(res_nl, fresh, basis_name):
             raise Violation('basis_arity', f'fresh gate {lab} = {ty}{ops} is not a two-input gate')
         if basis_name == 'AIG' and ty in ('XOR', 'NXOR'):
             raise Violation('basis_violated', f'fresh gate {lab} is {ty} although basis AIG was requested')
+
+
+def with_label_collisions(inner, every=6):
+    """Wraps a check on a host circuit: one case in `every` is run twice.  The first run shows which labels the library
+    gave to the gates it added; the second run uses the same host with some of its gates RENAMED to exactly those labels
+    (label generation is seeded per case, so the library will come up with them again) and to their successors where they
+    end in a number (what a sequential naming scheme would hand out next).  'Only fresh gates are added and existing gates
+    keep their function' is about any host - also one that was produced by this library in an earlier session."""
+    import re
+
+    from vlib import build as _build
+
+    def check(case):
+        host = case.get('host')
+        if not host or case.get('uuid_seed', 1) % every or not host.get('gates'):
+            return inner(case)
+        _build.LAST[0] = None
+        info = inner(case)
+        c = _build.LAST[0]
+        if c is None:
+            return info
+        have = {g[0] for g in host['gates']}
+        # (labels that the check itself asked for - explicit result labels - are the caller's, not the library's)
+        new = [l for l in c.gates if l not in have and not l.startswith(('res_', 'res', 'all_equal'))]
+        if not new:
+            return info
+        pred = list(new[:2])
+        tops: dict[str, int] = {}
+        for l in new:
+            m = re.match(r'^(.*?)(\d{1,9})$', l)
+            if m:
+                tops[m.group(1)] = max(tops.get(m.group(1), -1), int(m.group(2)))
+        for pre, top in tops.items():
+            pred += [f'{pre}{top + j}' for j in (1, 2, 3, 5)]
+        pred = [l for l in dict.fromkeys(pred) if l not in have][:6]
+        victims = [g[0] for g in host['gates']][::-1][:len(pred)]
+        ren = dict(zip(victims, pred))
+        r = lambda x: ren.get(x, x)
+        host2 = dict(host, inputs=[r(x) for x in host['inputs']], outputs=[r(x) for x in host['outputs']],
+                     gates=[[r(l), t, [r(o) for o in ops]] for l, t, ops in host['gates']])
+        info2 = inner(dict(case, host=host2))
+        info2.setdefault('cls', set()).add('host_holds_predicted_labels')
+        return info2
+
+    return check
